@@ -8,7 +8,7 @@ CONSTANTS
   TF = "t22s"
   PG = "p2s"
   TG = "t22s"
-  LAYOUTS = {"dfs", "hole", "low"}
+  LAYOUTS = {"dfs", "hole", "holed", "low"}
   EMIT = TRUE
 VIEW View
 INVARIANTS LawRegions
